@@ -243,8 +243,12 @@ func Progs(rc *vk.Rec) {
 	}
 	sort.Strings(fnames)
 	for _, f := range fnames {
-		for v := 0; v < fams[f]; v++ {
-			extras = append(extras, extra{o: wprog.GenOptions{Family: f, Variant: v, MaxScens: 1, MaxCalls: 1 << 20}, alwaysC: false})
+		rounds := 1
+		if f == "O-probe" {
+			rounds = 5 // seeded operand ranges and types: several per operator
+		}
+		for k := 0; k < rounds*fams[f]; k++ {
+			extras = append(extras, extra{o: wprog.GenOptions{Family: f, Variant: k % fams[f], MaxScens: 1, MaxCalls: 1 << 20}, alwaysC: false})
 		}
 	}
 	for v := 0; v < wprog.KillVariants(); v++ {
@@ -388,6 +392,9 @@ func progsC05(rc *vk.Rec, env *wprog.Env) {
 	const phase = "progs-c05"
 	nTotal := rc.N(160, 6000)
 	maxVar := 48
+	if !rc.Thorough() {
+		maxVar = 26 // quick tier: every variant is a package to generate and compile
+	}
 	// every split-independent family/variant is run at least twice whatever the
 	// seed (spread over the shards), then the seeded random sample
 	nEnum := 2 * len(wprog.SplitIndependentIDs)
@@ -437,6 +444,9 @@ func progsC05(rc *vk.Rec, env *wprog.Env) {
 		}
 		rc.Eval(1)
 		for _, sanitize := range []bool{true, false} {
+			if !sanitize && !rc.Thorough() && idx%3 != 0 {
+				continue // quick tier: the -O2 build for every third program
+			}
 			env.Sanitize = sanitize
 			build := "O2"
 			if sanitize {
